@@ -1240,7 +1240,12 @@ def stage_authorized_keys(ctx):
             base = [ln for ln in lines if ln['key'] is not None]
             if base:
                 kind = rng.choice(DAMAGE_KINDS)
-                o = gen_ossh_options(rng, True)[0] + ' ' if rng.random() < 0.5 else ''
+                o = ''
+                if rng.random() < 0.5:
+                    o = gen_ossh_options(rng, True)[0]
+                    while ref.parse_options(o) is None:       # only option strings OpenSSH itself accepts
+                        o = gen_ossh_options(rng, True)[0]
+                    o += ' '
                 bad_text = o + damaged_key(rng, kind)
                 pos = rng.randint(0, len(base))
                 t0 = ''.join(ln['text'] + '\n' for ln in base)
